@@ -340,7 +340,9 @@ structure WFH (w : World) (a : Acc) : Prop where
   live : (w.file a.file).live a.slot
   user : UserKey ((w.file a.file).keyOf a.slot)
   special_iff : a.special = isSpecial ((w.file a.file).dd a.slot).tag
-  new_iff : a.special = false → (a.newElem = true ↔ ((w.file a.file).dd a.slot).ext = none)
+  /-- an id on an element without length carries the "new" flag; the converse fails while the flag is stale (another id
+      gave the element its length; `HIrefresh_new` clears it at the next `Hread`/`Hwrite`/`Hsetlength`) -/
+  new_of_none : a.special = false → ((w.file a.file).dd a.slot).ext = none → a.newElem = true
   special_new : a.special = true → a.newElem = false
   blk : 1 ≤ a.blockSize ∧ 1 ≤ a.numBlocks
 
@@ -366,8 +368,7 @@ def NotLast (w : World) (a : Acc) : Prop :=
 
 /-- side conditions under which one call is covered by the refinement theorem. Each excluded situation is either outside
     the engine's scope or one of the open findings (F19 promotion while another id is open on the element, F20 stale
-    bytes beyond a recomputed `f_end_off` that `HPgetdiskblock` hands out again, F24 two ids on an element without
-    length; see `H4/Props/C01.lean` section 6 and known_findings.json). -/
+    bytes beyond a recomputed `f_end_off` that `HPgetdiskblock` hands out again; see `H4/Props/C01.lean` section 6 and known_findings.json). -/
 def OpSafe (w : World) : Op → Prop
   | .open fi mode _ =>
     NoHandleIn w fi ∧
@@ -378,14 +379,8 @@ def OpSafe (w : World) : Op → Prop
       -- growth of a contiguous element only; new linked blocks and reserved lengths still land on the old bytes)
       ∀ k, endOffOf (w.file fi).ndds (w.file fi).blkOff (w.file fi).mem ≤ k → rd (w.file fi).disk k = 0)
   | .close fi => NoHandleIn w fi
-  | .startaccess h fi tag ref _ _ =>
-    w.acc h = none ∧ UserKey (tag, ref) ∧
-    -- F24: no second id on an element that has no length yet
-    (∀ s, (w.file fi).select tag ref = some s → ((w.file fi).dd s).ext = none → NoHandleOn w fi s)
-  | .startwrite h fi tag ref _ =>
-    w.acc h = none ∧ UserKey (tag, ref) ∧
-    (∀ s, (w.file fi).select tag ref = some s → ((w.file fi).dd s).ext = none → NoHandleOn w fi s)
-  | .setlength h _ => Alone w h
+  | .startaccess h _ tag ref _ _ => w.acc h = none ∧ UserKey (tag, ref)
+  | .startwrite h _ tag ref _ => w.acc h = none ∧ UserKey (tag, ref)
   | .hlcreate h fi tag ref blen nblk =>
     w.acc h = none ∧ UserKey (tag, ref) ∧ 1 ≤ blen ∧ 1 ≤ nblk ∧
     (∀ s, (w.file fi).select tag ref = some s → NoHandleOn w fi s)
@@ -398,10 +393,8 @@ def OpSafe (w : World) : Op → Prop
   | .write h bs =>
     bs ≠ [] ∧
     -- F19: a write that promotes the element (appendable, beyond the end, element not last in the file)
-    (∀ a, w.acc h = some a → a.special = false → a.newElem = false → a.appendable = true →
-      (bs.length : Int) + a.posn > ddLen ((w.file a.file).dd a.slot) → NotLast w a → Alone w h) ∧
-    -- F24
-    (∀ a, w.acc h = some a → a.newElem = true → Alone w h)
+    (∀ a, w.acc h = some a → a.special = false → ((w.file a.file).dd a.slot).ext ≠ none → a.appendable = true →
+      (bs.length : Int) + a.posn > ddLen ((w.file a.file).dd a.slot) → NotLast w a → Alone w h)
   | .deldd fi tag ref => UserKey (tag, ref) ∧ ∀ s, (w.file fi).select tag ref = some s → NoHandleOn w fi s
   | _ => True
 
